@@ -13,15 +13,16 @@ import (
 
 // simNetErr is a net.Error with a chosen Temporary() answer.
 type simNetErr struct {
-	msg  string
-	temp bool
+	msg     string
+	temp    bool
+	timeout bool // Timeout() too (a temporary error may say both, e.g. EAGAIN)
 }
 
 func (e *simNetErr) Error() string   { return e.msg }
-func (e *simNetErr) Timeout() bool   { return false }
+func (e *simNetErr) Timeout() bool   { return e.timeout }
 func (e *simNetErr) Temporary() bool { return e.temp }
 
-var errSimReset = &simNetErr{"sim: connection reset by peer", false}
+var errSimReset = &simNetErr{msg: "sim: connection reset by peer", temp: false}
 
 // simTimeoutErr is what a read past its deadline returns (like os.ErrDeadlineExceeded).
 type simTimeoutErr struct{}
@@ -60,6 +61,7 @@ type SimConn struct {
 	ErrSeen     bool  // a Read has returned rerr (the reader consumed the end condition)
 	rwait       chan struct{}
 	laArm       bool
+	HalfClosed  int // CloseWrite calls
 	laGate      chan struct{}
 	MaxRead     int // cap per Read, 0 = none
 	inRead      bool
@@ -301,9 +303,9 @@ func (c *SimConn) Write(p []byte) (int, error) {
 			var err error
 			switch f.Kind {
 			case "temp":
-				err = &simNetErr{"sim: temporary write error", true}
+				err = &simNetErr{msg: "sim: temporary write error", temp: true}
 			case "perm":
-				err = &simNetErr{"sim: permanent write error", false}
+				err = &simNetErr{msg: "sim: permanent write error", temp: false}
 			default:
 				err = errors.New("sim: plain write error")
 			}
@@ -397,6 +399,16 @@ func (c *SimConn) Close() error {
 	if first {
 		c.e.Poke()
 	}
+	return nil
+}
+
+// CloseWrite is what TCP, TLS and unix connections offer besides Close: the sending side is shut
+// down, the connection stays. The library closes connections with Close; a half-close is recorded,
+// it does not count as "closed".
+func (c *SimConn) CloseWrite() error {
+	c.mu.Lock()
+	c.HalfClosed++
+	c.mu.Unlock()
 	return nil
 }
 
@@ -544,7 +556,12 @@ func (l *SimListener) Connect(c net.Conn) { l.push(acceptItem{c: c}) }
 
 // FailAccept makes the next Accept return a temporary error.
 func (l *SimListener) FailAccept() {
-	l.push(acceptItem{err: &simNetErr{"sim: accept: too many open files", true}})
+	l.push(acceptItem{err: &simNetErr{msg: "sim: accept: too many open files", temp: true}})
+}
+
+// FailAcceptTimeout: a temporary accept error that also reports Timeout() (EAGAIN-like).
+func (l *SimListener) FailAcceptTimeout() {
+	l.push(acceptItem{err: &simNetErr{msg: "sim: accept: resource temporarily unavailable", temp: true, timeout: true}})
 }
 
 // Pending is the number of queued accept results.
